@@ -26,7 +26,7 @@ enum {
   K_ENC0 /* PROP 7: encoder counters live in chk_encode.c slots */
 };
 static unsigned bn_max, dfs_k, cdepth;
-static uint64_t bn_units, dfs_units, con_units, enc_units, cat_units, cor_units, wide_units, dfs1_units, zero_units;
+static uint64_t bn_units, dfs_units, con_units, enc_units, cat_units, cor_units, wide_units, dfs1_units, zero_units, c14_cor_units;
 static vf_sb why, sb2;
 
 #if PROP == 7
@@ -360,7 +360,8 @@ static void c14_x(const uint8_t* x, size_t n) {
   vf_state(ref_tree_hash(want));
   if (t0 && r0.read != n) vf_fail(NULL, "x alone: read = %zu of %zu", r0.read, n);
   if (t0) cbor_decref(&t0);
-  uint8_t cat[12 * 16 + 32];
+  static uint8_t cat[(1 << 15) + 64];
+  if (n > (1 << 15)) return;
   memcpy(cat, x, n);
   for (size_t i = 0; i < ny; i++) {
     memcpy(cat + n, Y[i].b, Y[i].n);
@@ -543,6 +544,14 @@ static void unit(uint64_t u) {
   u -= cat_units;
   if (u < zero_units) { zero_unit(u); return; }
   u -= zero_units;
+  if (u < c14_cor_units) { /* boundary-corpus items (wide containers, long strings, deep nesting) as x: what follows a LARGE item must not matter either */
+    size_t n;
+    const uint8_t* b = vf_corpus_item(u, &n, NULL);
+    va_cap = 1ull << 30;
+    if (n <= (1 << 15)) { vf_cnt(K_CORPUS, 1); c14_x(b, n); }
+    return;
+  }
+  u -= c14_cor_units;
   vf_dfs_unit(&VF_SIGMA1, vf_tier ? 6 : 5, u, VF_L, va_cap, c14_seq_cb, NULL); /* deeper, structural alphabet */
 #else
   if (u < bn_units) { vf_bn_unit(bn_max, u, bn_cb, NULL); return; }
@@ -567,7 +576,7 @@ static void unit(uint64_t u) {
 #endif
 #endif
 }
-static uint64_t units(void) { return bn_units + dfs_units + con_units + cor_units + wide_units + enc_units + cat_units + dfs1_units + zero_units; }
+static uint64_t units(void) { return bn_units + dfs_units + con_units + cor_units + wide_units + enc_units + cat_units + dfs1_units + zero_units + c14_cor_units; }
 static void init(void) {
   vf_enum_init();
   vf_sets_init();
@@ -581,6 +590,8 @@ static void init(void) {
   cat_units = 64;
   dfs1_units = vf_dfs_units(&VF_SIGMA1);
   zero_units = (VF_SIGMA1.ntoks + 1) * (VF_SIGMA1.ntoks + 1);
+  vf_corpus_init();
+  c14_cor_units = vf_corpus_count();
   /* suffix set Y: empty, every single byte, every head of Sigma, a few complete items, garbage */
   add_y((const uint8_t*)"", 0);
   for (unsigned v = 0; v < 256; v++) {
